@@ -160,4 +160,149 @@ theorem svc_cycle (r : RtlSt) (io : Isa.IOSt) (ha : OregAligned r) (hs : FetchIs
     simp only [Isa.St.regs, k1, k2]
     simp (config := { decide := true })
 
+/-! ### Runs -/
+
+/-- The ISA-side range predicate on `abs r` gives the RTL-side hypotheses. -/
+theorem of_isaInRange (r : RtlSt) (h : IsaInRange (abs r)) : DefinedByte r ∧ InRange r := by
+  unfold IsaInRange at h
+  have hpc : (absRegs r).pc < 800000#32 := by
+    by_cases hlt : ((abs r).pc >>> 2).toNat < memWords
+    · have e : (absRegs r).pc = (abs r).pc := rfl
+      rw [e, BitVec.lt_def]
+      rw [BitVec.toNat_ushiftRight, Nat.shiftRight_eq_div_pow] at hlt
+      unfold memWords at hlt
+      have : BitVec.toNat (800000#32) = 800000 := rfl
+      rw [this]
+      omega
+    · simp only [Isa.fetch, hlt, if_false] at h
+  rw [fetch_abs r hpc] at h
+  exact h
+
+/-- `abs` commutes with replacing the memory. -/
+theorem abs_setMem (r : RtlSt) (m : BitVec 19 → Word) :
+    abs { r with u_memory__memory_q := m } = { abs r with mem := absMem m } := rfl
+
+/-- **Runs.**  From any state with an aligned `oreg` (in particular the reset state), for every
+    bench that services system calls as `Isa.svc` does and every number of clocks `n`: if the
+    first `n` ISA instructions from `abs r` are defined and in range, the system after `n`
+    clocks abstracts to exactly the ISA outcome after `n` instructions (registers, memory, I/O
+    history, exit value). -/
+theorem run_refines (tb : Tb) (htb : TbRefines tb) :
+    ∀ (n : Nat) (r : RtlSt) (io : Isa.IOSt) (out : Isa.Outcome), OregAligned r →
+      isaRun n (abs r) io = some out → absResult (sysRun tb n r io) = out := by
+  intro n
+  induction n with
+  | zero =>
+    intro r io out _ h
+    simp only [isaRun, Option.some.injEq] at h
+    simp only [sysRun, absResult, h]
+  | succ n ih =>
+    intro r io out ha h
+    unfold isaRun at h
+    by_cases hir : IsaInRange (abs r)
+    · rw [if_pos hir] at h
+      obtain ⟨hd, hr⟩ := of_isaInRange r hir
+      unfold sysRun sysCycle
+      by_cases hs : FetchIsSvc r
+      · -- the SVC cycle
+        have hv : sysValid r = 1#1 := (sysValid_iff_svc r ha hd).2 hs
+        obtain ⟨h1, h2⟩ := svc_cycle r io ha hs hr
+        have hmem : (Isa.svcEntry (abs r) (fetchByte r)).mem = absMem (cycle r).mem := by
+          exact (congrArg Isa.St.mem h2).symm
+        have hA : (Isa.svcEntry (abs r) (fetchByte r)).a = r.areg := rfl
+        have ht := htb (cycle r).mem io (Isa.svcEntry (abs r) (fetchByte r)) hmem
+        rw [h1] at h
+        rw [hA, ← sysCall_eq r] at ht
+        simp only [hv, if_true]
+        cases hsv : Isa.svc (Isa.svcEntry (abs r) (fetchByte r)) io with
+        | running s' io' =>
+          rw [hsv] at h ht
+          simp only at h ht
+          obtain ⟨m', t1, t2⟩ := ht
+          rw [t1]
+          simp only
+          apply ih _ _ _ (show OregAligned { cycle r with u_memory__memory_q := m' } from aligned_cycle r ha)
+          rw [abs_setMem, h2, ← h, t2]
+          rfl
+        | exited c s' io' =>
+          rw [hsv] at h ht
+          simp only at h ht
+          obtain ⟨t1, t2⟩ := ht
+          rw [t1]
+          simp only [Option.some.injEq] at h
+          simp only [absResult, ← h, h2, t2]
+          rfl
+        | undef w =>
+          rw [hsv] at h
+          simp only at h
+          exact absurd h (by simp)
+      · -- an ordinary instruction
+        have hv : ¬ (sysValid r = 1#1) := fun hv => hs ((sysValid_iff_svc r ha hd).1 hv)
+        rw [step_refines r io ha hd hs hr] at h
+        simp only at h
+        simp only [hv, if_false]
+        exact ih _ _ _ (aligned_cycle r ha) h
+    · rw [if_neg hir] at h
+      exact absurd h (by simp)
+
+/-! ### The reference bench refines `Isa.svc` -/
+
+theorem ld_abs (m : BitVec 19 → Word) (i : Word) :
+    Isa.ld (absMem m) i = if i.toNat < memWords then some (m (i.setWidth 19)) else none := by
+  unfold Isa.ld
+  by_cases h : i.toNat < memWords
+  · rw [if_pos h, if_pos h, absMem_read _ _ h, ofNat_toNat_setWidth]
+  · rw [if_neg h, if_neg h]
+
+theorem stw_abs (m : BitVec 19 → Word) (i v : Word) :
+    Isa.stw (absMem m) i v = if i.toNat < memWords then some (absMem (upd m (i.setWidth 19) v)) else none := by
+  unfold Isa.stw
+  by_cases h : i.toNat < memWords
+  · rw [if_pos h, if_pos h, absMem_upd _ _ _ (by rw [setWidth_toNat_small _ h]; exact h),
+      setWidth_toNat_small _ h]
+  · rw [if_neg h, if_neg h]
+
+theorem sp_add (sp : Word) (k : Word) : (sp + k).setWidth 19 = sp.setWidth 19 + k.setWidth 19 := by
+  simp only [Word] at *
+  bv_decide
+
+/-- The reference bench (hextb.cpp's `handleSyscall` over `memory_q`) services every defined
+    system call exactly as `Isa.svc` does. -/
+theorem refTb_refines : TbRefines refTb := by
+  intro m io s hm
+  rcases s with ⟨pc, a, b, o, mem⟩
+  simp only at hm
+  subst hm
+  have h1 : (absMem m).read 1 = m 1#19 := by
+    rw [absMem_read _ _ (by unfold memWords; omega)]
+  unfold Isa.svc
+  simp only [h1, ld_abs, stw_abs, sp_add, BitVec.ofNat_eq_ofNat]
+  by_cases a0 : a = 0#32
+  · subst a0
+    simp only [↓reduceIte]
+    by_cases l : (m 1#19 + 2#32).toNat < memWords
+    · simp only [l, ↓reduceIte, refTb]
+      simp only [BitVec.reduceSetWidth, BitVec.reduceEq, ↓reduceIte, and_true]
+    · simp only [l, ↓reduceIte]
+  · by_cases a1 : a = 1#32
+    · subst a1
+      simp only [↓reduceIte, BitVec.reduceEq]
+      by_cases l : (m 1#19 + 2#32).toNat < memWords
+      · by_cases l3 : (m 1#19 + 3#32).toNat < memWords
+        · simp only [l, l3, ↓reduceIte, refTb, BitVec.reduceEq, BitVec.reduceSetWidth]
+          exact ⟨m, rfl, rfl⟩
+        · simp only [l, l3, ↓reduceIte]
+      · by_cases l3 : (m 1#19 + 3#32).toNat < memWords <;>
+          simp only [l, l3, ↓reduceIte]
+    · by_cases a2 : a = 2#32
+      · subst a2
+        simp only [↓reduceIte, BitVec.reduceEq]
+        by_cases l : (m 1#19 + 2#32).toNat < memWords
+        · by_cases l1 : (m 1#19 + 1#32).toNat < memWords
+          · simp only [l, l1, ↓reduceIte, refTb, BitVec.reduceEq, BitVec.reduceSetWidth]
+            exact ⟨_, rfl, rfl⟩
+          · simp only [l, l1, ↓reduceIte]
+        · simp only [l, ↓reduceIte]
+      · simp only [a0, a1, a2, ↓reduceIte]
+
 end Hex.Rtl
